@@ -63,8 +63,8 @@ pub fn oracle(input: &str, st: &mut Stats) -> Verdict {
         Err(p) => vbail!("c11.panic.parse", "aisle::parse panicked: {p}; input {input:?}"),
     };
     // "trimmed" is only unambiguous when every blank is ASCII space/tab/CR/LF
-    let unambiguous = input.chars().all(|c| !c.is_whitespace() || matches!(c, ' ' | '\t' | '\n' | '\r'))
-        && !input.contains('\r') || input.chars().all(|c| c.is_ascii() && c != '\x0b' && c != '\x0c') && !input.replace("\r\n", "").contains('\r');
+    // (a lone CR inside a line is an ordinary character of a name; at the ends of a name it is trimmed like any blank)
+    let unambiguous = input.chars().all(|c| !c.is_whitespace() || matches!(c, ' ' | '\t' | '\n' | '\r'));
     let refr = reference(input);
     match &res {
         Err(e) => {
